@@ -23,7 +23,7 @@ AS = (1 / 64, 0.25, 0.5, 2.0, 3.0, 10.0, 64.0, 100.0)
 
 def REQUIRED(tier):
     return [f"scale:{m}" for m in SCALES] + ["axis:None", "axis:0", "axis:1", "shape:one_lane", "shape:2d", "shape:1d", "class:constant", "class:zeros", "class:mixed_lanes", "class:ties",
-                                             "class:outliers", "equivariance_checks", "zscore_checks", "lane_checks", "a<0", "via_block", "via_timeseries", "layout:F", "layout:T_view", "dtype:float64_input", "input_unchanged_checks", "class:constant_nonround"]
+                                             "class:outliers", "equivariance_checks", "zscore_checks", "lane_checks", "a<0", "via_block", "via_timeseries", "layout:F", "layout:T_view", "dtype:float64_input", "input_unchanged_checks", "class:constant_nonround", "zscore_norm_location_checks", "dtype:unsigned_input"]
 
 
 def cases(tier, seed):
@@ -148,6 +148,19 @@ def _one(case, j, ctx):
         if not (np.array_equal(x, xkeep) and np.array_equal(y, ykeep)):
             ctx.violation(f"input-modified:estimate_scale:{method}", f"estimate_scale({shape}, {method}, axis={axis}) on {x.dtype} data changed the caller's array in place", one)
             return
+        if cls in ("uniform", "ties", "outliers", "normal") and j % 4 == 1:
+            # the same non-negative values held as unsigned integers (raw 8/16-bit samples): the estimate must not depend on the container type
+            xu = (x.astype(np.float64) - float(np.min(x))).astype(np.uint16 if float(np.max(x) - np.min(x)) > 255 else np.uint8)
+            ctx.count("dtype:unsigned_input")
+            try:
+                Su = np.asarray(stats.estimate_scale(xu, method, axis), dtype=np.float64)
+                Sf = np.asarray(stats.estimate_scale(xu.astype(np.float32), method, axis), dtype=np.float64)
+                if Su.shape != Sf.shape or not np.allclose(Su, Sf, rtol=1e-6, atol=1e-9):
+                    ctx.violation(f"scale-depends-on-integer-container:{method}", f"estimate_scale of {xu.dtype} data = {np.ravel(Su)[:3].tolist()}, of the same values as float32 = {np.ravel(Sf)[:3].tolist()} ({shape}, axis={axis})", one)
+                    return
+            except Exception as exc:  # noqa: BLE001
+                ctx.violation(f"scale-raised:{lab}:unsigned:{type(exc).__name__}@{exc_site(exc)}", fmt_exc(exc), one)
+                return
         lanes, lshape = _lanes(x, axis)
         # ---- (iii)/(iv) lane consistency and shapes
         ctx.count("lane_checks")
@@ -228,6 +241,17 @@ def _one(case, j, ctx):
         if not (np.all(np.isfinite(zxd)) and np.all(np.isfinite(zyd))):
             ctx.violation(f"non-finite-zscore:{lab}:{cls}", "z-scores of finite data contain NaN/inf", one)
             return
+        if loc == "norm":
+            # no centring: the z-scores are the data divided by the scale the library reports for the same data
+            ctx.count("zscore_norm_location_checks")
+            Sfull = np.broadcast_to(Sk if method != "doublemad" else S, x.shape)
+            nzn = Sfull > 1e-7 * 64
+            wantn = x.astype(np.float64) / np.where(nzn, Sfull, 1.0)
+            toln = 1e-5 * np.maximum(1.0, np.abs(wantn))
+            if np.any(np.abs(zxd - wantn)[nzn] > toln[nzn]):
+                i = int(np.argmax(np.where(nzn, np.abs(zxd - wantn) - toln, -1)))
+                ctx.violation(f"zscore-norm-location:{lab}:{cls}", f"loc_method='norm': z flat[{i}] = {zxd.ravel()[i]!r} but x/scale(x) = {wantn.ravel()[i]!r} (scale {np.ravel(Sfull)[i]!r})", one)
+                return
         if loc != "norm":
             Sfull = np.broadcast_to(Sk if method != "doublemad" else S, x.shape)
             nz = Sfull > 1e-7 * 64  # scale(x) != 0 and not inside the zero guard for either x or a*x
